@@ -2,7 +2,7 @@
 
 Requests:
   (ping)
-  (cache N timeout (schedule (pid choice) ...))      choice ∈ none | fail | kill
+  (cache N timeout (schedule (pid choice) ...))      choice ∈ none | fail | kill | again
      -> (ok (trace (pid op res handlers stdout) ...)           one entry per schedule entry
             (fs lock so obj marker failed)
             (procs (pid pc nextop polls handlers stdout) ...)
@@ -35,7 +35,7 @@ def opS : Op → String
   | .lock => "lock" | .poll => "poll" | .find => "find" | .load => "load" | .gen => "gen"
   | .swap => "swap" | .src => "src" | .obj => "obj" | .link1 => "link1" | .link2 => "link2"
   | .unredir => "unredir" | .mark => "mark" | .restore => "restore" | .release => "release"
-  | .kill => "kill" | .none => "none"
+  | .kill => "kill" | .again => "again" | .none => "none"
 
 def resS : Res → String
   | .ok => "ok" | .exists_ => "exists" | .true_ => "true" | .false_ => "false" | .found => "found"
@@ -49,6 +49,7 @@ def pcS : Pc → Sexp
   | .bLink1 => .atom "bLink1" | .bLink2 => .atom "bLink2" | .bUnredir => .atom "bUnredir"
   | .bMark => .atom "bMark" | .bRestore => .atom "bRestore" | .bFind => .atom "bFind"
   | .bLoad => .atom "bLoad"
+  | .bFailRestore c => .list [.atom "bFailRestore", .atom (causeS c)]
   | .bFail c => .list [.atom "bFail", .atom (causeS c)]
   | .done b so => .list [.atom "done", Sexp.ofBool b, .atom (soS so)]
   | .raised .timeout => .list [.atom "raised", .atom "timeout"]
@@ -61,7 +62,7 @@ def nextOp : Pc → String
   | .idle => "lock" | .wPoll _ => "poll" | .wFind => "find" | .wLoad => "load"
   | .bGen => "gen" | .bSwap => "swap" | .bSrc => "src" | .bObj => "obj" | .bLink1 => "link1"
   | .bLink2 => "link2" | .bUnredir => "unredir" | .bMark => "mark" | .bRestore => "restore"
-  | .bFind => "find" | .bLoad => "load" | .bFail _ => "release"
+  | .bFind => "find" | .bLoad => "load" | .bFailRestore _ => "restore" | .bFail _ => "release"
   | .done _ _ | .raised _ | .dead => "none"
 
 def choiceOf (s : Sexp) : Except String Choice := do
@@ -70,6 +71,7 @@ def choiceOf (s : Sexp) : Except String Choice := do
   | "none" => .ok .none
   | "fail" => .ok .fail
   | "kill" => .ok .kill
+  | "again" => .ok .again
   | _ => .error s!"bad choice {a}"
 
 def scheduleOf (s : Sexp) : Except String (List (Nat × Choice)) := do
